@@ -270,11 +270,11 @@ fn twin_c18_c19() -> R {
         let mut flow = to_send_body(req)?;
         let m = flow.calculate_max_input(o);
         if m > o {
-            return Err(format!("max_input({}) = {} > n", o, m));
+            return Err(format!("[C18] max_input({}) = {} > n", o, m));
         }
         // monotone along the ascending sweep 0..=top (the extra sizes appended afterwards are not in order)
         if idx <= top && m < prev_max {
-            return Err(format!("max_input not monotone at {}", o));
+            return Err(format!("[C18] max_input not monotone at {}", o));
         }
         if idx <= top {
             prev_max = m;
@@ -286,7 +286,7 @@ fn twin_c18_c19() -> R {
             let mut out = vec![0u8; o];
             let (ci, _co) = flow.write(&input, &mut out).map_err(|e| format!("{:?}", e))?;
             if ci != m {
-                return Err(format!("max_input({}) = {} but a write consumed only {}", o, m, ci));
+                return Err(format!("[C18] max_input({}) = {} but a write consumed only {}", o, m, ci));
             }
         }
         // progress + monotone in the offered input (fresh flows, same buffer)
@@ -300,10 +300,10 @@ fn twin_c18_c19() -> R {
                 let mut out = vec![0u8; o];
                 let (ci, _) = f2.write(&input, &mut out).map_err(|e| format!("{:?}", e))?;
                 if ci == 0 {
-                    return Err(format!("no progress: input {} output {}", il, o));
+                    return Err(format!("[C19] no progress: input {} output {}", il, o));
                 }
                 if ci < il.min(m) {
-                    return Err(format!("input {} output {}: consumed {} < min(input, max_input={})", il, o, ci, m));
+                    return Err(format!("[C18,C19] input {} output {}: consumed {} < min(input, max_input={})", il, o, ci, m));
                 }
                 if il >= last_in(&[1usize, 2, 15, 16, 17, 255, 256, 257], il) && ci < last.min(il) {
                     // monotone along the increasing prefix of the list
@@ -319,7 +319,7 @@ fn twin_c18_c19() -> R {
                 let mut out = vec![0u8; o];
                 let (ci, _) = f2.write(&vec![b'm'; il], &mut out).map_err(|e| format!("{:?}", e))?;
                 if ci < prev {
-                    return Err(format!("offering more input reduced progress: output {} input {} consumed {} < {}", o, il, ci, prev));
+                    return Err(format!("[C19] offering more input reduced progress: output {} input {} consumed {} < {}", o, il, ci, prev));
                 }
                 prev = ci;
             }
@@ -656,7 +656,7 @@ fn twin_c05_c20() -> R {
             match k {
                 1 => {
                     if try_parse_response::<0>(&full).err() != Some(Error::HttpParseTooManyHeaders) {
-                        return Err("limit 0 not enforced".into());
+                        return Err("[C20] limit 0 not enforced".into());
                     }
                 }
                 _ => {}
@@ -676,7 +676,7 @@ fn twin_c05_c20() -> R {
             if cut <= status_line_len {
                 match try_parse_response::<0>(pre) {
                     Ok(None) => {}
-                    other => return Err(format!("limit 0: prefix {} of {:?}: {:?}", cut, String::from_utf8_lossy(&head), other.map(|o| o.map(|x| x.0)))),
+                    other => return Err(format!("[C20,C11] limit 0: prefix {} of {:?}: {:?}", cut, String::from_utf8_lossy(&head), other.map(|o| o.map(|x| x.0)))),
                 }
             }
             match try_parse_partial_response::<8>(pre) {
@@ -686,18 +686,18 @@ fn twin_c05_c20() -> R {
                     for (name, val) in r.headers().iter() {
                         let line_end = find_field_end(&head, name.as_str(), val.as_bytes());
                         if line_end.map(|e| e > cut).unwrap_or(true) {
-                            return Err(format!("partial parser reported a field not completely received: {:?} at cut {}", name, cut));
+                            return Err(format!("[C20] partial parser reported a field not completely received: {:?} at cut {}", name, cut));
                         }
                     }
                 }
-                Err(e) => return Err(format!("partial parser failed on prefix {} of {:?}: {:?}", cut, String::from_utf8_lossy(&head), e)),
+                Err(e) => return Err(format!("[C20] partial parser failed on prefix {} of {:?}: {:?}", cut, String::from_utf8_lossy(&head), e)),
             }
             let mut flow = to_recv_response(get_req())?;
             let location_complete = fields.iter().any(|(k, v)| k == "location" && find_field_end(&head, k, v).map(|e| e <= cut).unwrap_or(false));
             match flow.try_response(pre) {
                 Ok((0, None)) => {}
                 Ok((_, Some(_))) if is_redirect && location_complete => { /* known finding KF2, owned by C05's listed exception */ }
-                other => return Err(format!("flow: prefix {} of {:?} -> {:?}", cut, String::from_utf8_lossy(&head), other.map(|o| (o.0, o.1.is_some())))),
+                other => return Err(format!("[C05] flow: prefix {} of {:?} -> {:?}", cut, String::from_utf8_lossy(&head), other.map(|o| (o.0, o.1.is_some())))),
             }
         }
         // exactly H in the buffer (nothing after it) is a complete head too
@@ -705,14 +705,14 @@ fn twin_c05_c20() -> R {
         match flow.try_response(&head) {
             Ok((used, Some(r))) if used == head.len() && r.status().as_u16() == st => {}
             Err(Error::BadContentLengthHeader) => {}
-            other => return Err(format!("flow: head alone {:?} -> {:?}", String::from_utf8_lossy(&head), other.map(|o| (o.0, o.1.is_some())))),
+            other => return Err(format!("[C05] flow: head alone {:?} -> {:?}", String::from_utf8_lossy(&head), other.map(|o| (o.0, o.1.is_some())))),
         }
         // the flow consumes exactly |H|
         let mut flow = to_recv_response(get_req())?;
         match flow.try_response(&full) {
             Ok((used, Some(r))) if used == head.len() && r.status().as_u16() == st => {}
             Err(Error::BadContentLengthHeader) => {}
-            other => return Err(format!("flow: complete head {:?} -> {:?}", String::from_utf8_lossy(&head), other.map(|o| (o.0, o.1.is_some())))),
+            other => return Err(format!("[C05] flow: complete head {:?} -> {:?}", String::from_utf8_lossy(&head), other.map(|o| (o.0, o.1.is_some())))),
         }
     }
     // 128 / 129 fields
@@ -728,10 +728,10 @@ fn twin_c05_c20() -> R {
         if k == 128 {
             match r {
                 Ok((u, Some(resp))) if u == h.len() && resp.headers().len() == 128 => {}
-                other => return Err(format!("128 fields: {:?}", other.map(|o| o.0))),
+                other => return Err(format!("[C05] 128 fields: {:?}", other.map(|o| o.0))),
             }
         } else if r.is_ok() {
-            return Err("129 fields accepted".into());
+            return Err("[C05] 129 fields accepted".into());
         }
     }
     // request parser
@@ -746,16 +746,16 @@ fn twin_c05_c20() -> R {
         n += 1;
         match try_parse_request::<4>(&full) {
             Ok(Some((used, r))) if used == h.len() && r.method().as_str() == m && r.headers().len() == nf => {}
-            other => return Err(format!("request parser: {:?}", other.map(|o| o.map(|x| x.0)))),
+            other => return Err(format!("[C20] request parser: {:?}", other.map(|o| o.map(|x| x.0)))),
         }
         if nf > 0 && try_parse_request::<1>(&full).is_ok() && nf > 1 {
-            return Err("request limit not enforced".into());
+            return Err("[C20] request limit not enforced".into());
         }
         for cut in 0..h.len() {
             n += 1;
             match try_parse_request::<4>(&h[..cut]) {
                 Ok(None) => {}
-                other => return Err(format!("request prefix {}: {:?}", cut, other.map(|o| o.map(|x| x.0)))),
+                other => return Err(format!("[C20] request prefix {}: {:?}", cut, other.map(|o| o.map(|x| x.0)))),
             }
         }
     }
@@ -1135,24 +1135,24 @@ fn twin_c10_c11_c09() -> R {
                                     let mut rr = match flow.proceed() {
                                         Ok(Some(SendRequestResult::Await100(mut a))) => {
                                             if !expect {
-                                                return Err("Await100 without Expect".into());
+                                                return Err("[C09,C11] Await100 without Expect".into());
                                             }
                                             // undecided prefixes consume nothing
                                             for cut in [0usize, 5, 12, 17] {
                                                 if a.try_read_100(&b"HTTP/1.1 100 Continue\r\n\r\n"[..cut]) != Ok(0) || !a.can_keep_await_100() {
-                                                    return Err(format!("try_read_100 decided on a {}-byte prefix", cut));
+                                                    return Err(format!("[C11] try_read_100 decided on a {}-byte prefix", cut));
                                                 }
                                             }
                                             match handshake {
                                                 0 => {
                                                     let i = b"HTTP/1.1 100 Continue\r\n\r\nHTTP/1.1 200";
                                                     if a.try_read_100(i) != Ok(25) || a.can_keep_await_100() {
-                                                        return Err("bare 100 not consumed exactly".into());
+                                                        return Err("[C11] bare 100 not consumed exactly".into());
                                                     }
                                                 }
                                                 1 | 2 | 4 => {
                                                     if a.try_read_100(refusal.as_bytes()) != Ok(0) || a.can_keep_await_100() {
-                                                        return Err("refusal must consume nothing and stop waiting".into());
+                                                        return Err("[C11] refusal must consume nothing and stop waiting".into());
                                                     }
                                                     refused = true;
                                                 }
@@ -1161,7 +1161,7 @@ fn twin_c10_c11_c09() -> R {
                                             match a.proceed() {
                                                 Ok(Await100Result::SendBody(mut sb)) => {
                                                     if refused {
-                                                        return Err("body requested after refusal".into());
+                                                        return Err("[C11] body requested after refusal".into());
                                                     }
                                                     sb.write(b"hi", &mut out).map_err(|e| format!("{:?}", e))?;
                                                     sb.write(&[], &mut out).map_err(|e| format!("{:?}", e))?;
@@ -1169,7 +1169,7 @@ fn twin_c10_c11_c09() -> R {
                                                 }
                                                 Ok(Await100Result::RecvResponse(r)) => {
                                                     if !refused {
-                                                        return Err("body skipped without refusal".into());
+                                                        return Err("[C11] body skipped without refusal".into());
                                                     }
                                                     r
                                                 }
@@ -1178,16 +1178,16 @@ fn twin_c10_c11_c09() -> R {
                                         }
                                         Ok(Some(SendRequestResult::SendBody(mut sb))) => {
                                             if expect {
-                                                return Err("SendBody with Expect".into());
+                                                return Err("[C09,C11] SendBody with Expect".into());
                                             }
                                             sb.write(b"hi", &mut out).map_err(|e| format!("{:?}", e))?;
                                             if sb.can_proceed() {
-                                                return Err("can proceed before finish".into());
+                                                return Err("[C09] can proceed before finish".into());
                                             }
                                             sb.write(&[], &mut out).map_err(|e| format!("{:?}", e))?;
                                             sb.proceed().ok_or("SendBody cannot proceed")?
                                         }
-                                        _ => return Err("unexpected state after head".into()),
+                                        _ => return Err("[C09] unexpected state after head".into()),
                                     };
                                     // response
                                     let mut head = if refused {
@@ -1211,7 +1211,7 @@ fn twin_c10_c11_c09() -> R {
                                         let l = b"HTTP/1.1 100 Continue\r\n\r\n";
                                         match rr.try_response(l) {
                                             Ok((25, None)) => {}
-                                            other => return Err(format!("late 100 not skipped: {:?}", other.map(|o| (o.0, o.1.is_some())))),
+                                            other => return Err(format!("[C11] late 100 not skipped: {:?}", other.map(|o| (o.0, o.1.is_some())))),
                                         }
                                     }
                                     if late_100 && expect && (gave_up || handshake == 0) {
@@ -1219,11 +1219,11 @@ fn twin_c10_c11_c09() -> R {
                                         let l = b"HTTP/1.1 100 Continue\r\n\r\n";
                                         match rr.try_response(l) {
                                             Ok((25, Some(r))) if r.status().as_u16() == 100 => {}
-                                            other => return Err(format!("a second / unawaited 100 was not surfaced (handshake {}): {:?}", handshake, other.map(|o| (o.0, o.1.is_some())))),
+                                            other => return Err(format!("[C11] a second / unawaited 100 was not surfaced (handshake {}): {:?}", handshake, other.map(|o| (o.0, o.1.is_some())))),
                                         }
                                     }
                                     if rr.can_proceed() {
-                                        return Err("RecvResponse can proceed before a response".into());
+                                        return Err("[C09] RecvResponse can proceed before a response".into());
                                     }
                                     match rr.try_response(head.as_bytes()) {
                                         Ok((u, Some(_))) if u == head.len() => {}
@@ -1244,20 +1244,20 @@ fn twin_c10_c11_c09() -> R {
                                                 rb.read(&body[7..], &mut o).map_err(|e| format!("{:?}", e))?;
                                             }
                                             if !rb.can_proceed() {
-                                                return Err(format!("body not complete ({} {})", framing, resp_v));
+                                                return Err(format!("[C09] body not complete ({} {})", framing, resp_v));
                                             }
                                             match rb.proceed() {
                                                 Some(RecvBodyResult::Cleanup(c)) => c,
-                                                _ => return Err("no cleanup".into()),
+                                                _ => return Err("[C09] no cleanup".into()),
                                             }
                                         }
                                         Some(RecvResponseResult::Cleanup(c)) => c,
-                                        _ => return Err("unexpected state after response".into()),
+                                        _ => return Err("[C09] unexpected state after response".into()),
                                     };
                                     let want = req_v == Version::HTTP_10 || req_close == Some("close") || (!refused && resp_close == Some("close")) || refused || close_delim;
                                     if cleanup.must_close_connection() != want || cleanup.close_reason().is_some() != want {
                                         return Err(format!(
-                                            "verdict {} want {} (req {:?} close {:?} expect {} handshake {} resp {} framing {} resp_close {:?}) reason {:?}",
+                                            "[C10] verdict {} want {} (req {:?} close {:?} expect {} handshake {} resp {} framing {} resp_close {:?}) reason {:?}",
                                             cleanup.must_close_connection(), want, req_v, req_close, expect, handshake, resp_v, framing, resp_close, cleanup.close_reason()
                                         ));
                                     }
@@ -1290,35 +1290,35 @@ fn twin_c10_c11_c09() -> R {
                 let got = match rr.proceed() {
                     Some(RecvResponseResult::RecvBody(mut rb)) => {
                         if !has_body {
-                            return Err(format!("RecvBody for a response without body: {:?}", head));
+                            return Err(format!("[C09] RecvBody for a response without body: {:?}", head));
                         }
                         let mut o = [0u8; 8];
                         rb.read(b"ok", &mut o).map_err(|e| format!("{:?}", e))?;
                         if !rb.can_proceed() {
-                            return Err("sized body not complete".into());
+                            return Err("[C09] sized body not complete".into());
                         }
                         match rb.proceed() {
                             Some(RecvBodyResult::Redirect(_)) => true,
                             Some(RecvBodyResult::Cleanup(_)) => false,
-                            None => return Err("RecvBody::proceed None although can_proceed".into()),
+                            None => return Err("[C09] RecvBody::proceed None although can_proceed".into()),
                         }
                     }
                     Some(RecvResponseResult::Redirect(_)) => {
                         if has_body {
-                            return Err(format!("body skipped: {:?}", head));
+                            return Err(format!("[C09] body skipped: {:?}", head));
                         }
                         true
                     }
                     Some(RecvResponseResult::Cleanup(_)) => {
                         if has_body {
-                            return Err(format!("body skipped: {:?}", head));
+                            return Err(format!("[C09] body skipped: {:?}", head));
                         }
                         false
                     }
-                    None => return Err("RecvResponse::proceed None after a response".into()),
+                    None => return Err("[C09] RecvResponse::proceed None after a response".into()),
                 };
                 if got != want_redirect {
-                    return Err(format!("successor after {:?}: redirect={} want {}", head, got, want_redirect));
+                    return Err(format!("[C09] successor after {:?}: redirect={} want {}", head, got, want_redirect));
                 }
             }
         }
